@@ -16,6 +16,13 @@ checks = {
  "C15": ("B", "exhaustive enumeration of (source, destination, capacity, destination form) with an all-or-nothing oracle",
          "Complete product of source length/nil pattern/FIFO/capacity x destination length/nil pattern/capacity none..max x 15 destination forms (native, aliases, pointers, read-only, zero, freed, nil pointers, foreign values); raw dumps of source and destination are compared before/after.",
          "Trusted: VerifDump for 'unchanged'; lengths up to 3 (quick) / 4 (thorough).", "§3 C15"),
+
+ "C06": ("A", "explicit-state BFS over Condition constructor/setter histories vs. a reference record, on the real code",
+         "From a blank start every Cond(kw,op,ex) over 6 keywords x 8 operators x 9 expressions (nil, empty, wrong type, user operators, stringers, stacks, aliases, conditions) and Init(); from every reachable state every setter over the same alphabets plus no-nesting/no-padding/parenthetical/encapsulation/SetErr; Keyword/Operator/Expression/Err, the Valid rule, String()=='' iff invalid and the exact rendering are compared after every transition. Fix-point reached.",
+         "Trusted: reference acceptance rules written from the statement; blank placement inside a Condition's parentheses is not constrained.", "§3 C06"),
+ "C18": ("A", "explicit-state BFS over option/setting/log-level setter histories vs. reference bit-sets and records",
+         "Option bits: every tri-state method found by reflection (deprecated aliases included) x {true,false,toggle} from every reachable option set (all 2^8 on Stacks of each kind, all on Conditions), compared with a reference bit-set whose bit assignment is derived empirically, with the public getters, with behaviour (fold, lead-once, index options via String/Index) and differentially with a twin built directly. String-valued settings (ID, category, delimiter, symbol, encapsulation incl. duplicate refusal, auxiliary, FIFO latch): BFS, getters and exact String() compared. Log levels: fix-point over reachable 16-bit masks with names, constants, raw ints.",
+         "Trusted: documentation of the none/all shortcuts in log.go; settings family complete to the depth reported in the evidence.", "§3 C18"),
 }
 not_built = {f"C{i:02d}" for i in range(1,21)} - set(checks)
 m = {
